@@ -163,7 +163,7 @@ fn group_check(_ctx: &Ctx, c: &GroupCase) -> Report {
   let progress = Arc::new(Mutex::new(String::new()));
   let p2 = progress.clone();
   let cfg = arx_rt::Config { schedule: Default::default(), max_steps: 60_000, fuel: 60_000 };
-  let out = arx_rt::run(cfg, move || {
+  let out = crate::real::rt_run(cfg, move || {
     let ctx = CaseCtx::new();
     // the source: a Subject / BehaviorSubject / ReplaySubject the callbacks can call back into
     let subject = rx_inst::subjects::subject::Subject::<V>::new();
